@@ -16,6 +16,9 @@ def main(argv=None):
                     default=int(os.environ.get("VERIF_SEED", "1") or 1))
     ap.add_argument("--shards", type=int, default=None)
     a = ap.parse_args(argv)
+    import warnings
+    warnings.filterwarnings('ignore')
+    os.environ.setdefault('PYTHONWARNINGS', 'ignore')
     import faulthandler
     import signal
     faulthandler.register(signal.SIGUSR1, all_threads=True)
